@@ -9,6 +9,7 @@ Grammar (line oriented; `#` starts a comment outside blocks; a block is  <<< ...
   include FILE                      (another prelude text file, relative to /verif/spec)
   opaque TYPE-PREFIX ...            (R6: struct field types starting with one of these become `Opaque`)
   dropfield STRUCT FIELD ...        (R6b: field removed from struct AND from struct literals of that type)
+  closure_all `|x| ..` params `|x: T|` ret `(o: U)` <<< ensures >>>   (contract on every occurrence of that closure literal)
   rewrite `old tokens` => `new text`   (unit-wide token rewrite, every occurrence, reported; pattern tokens __1, __2 match a
                                         balanced token run and are substituted into the new text)
   opaque_call `Path::Ctor` => `stub()` (unit-wide: a call of that constructor, WITH its arguments, becomes the stub expression; reported)
@@ -82,6 +83,7 @@ class Unit:
         self.opaque = []
         self.dropfields = []
         self.rewrites = []
+        self.closures_all = []
         self.opaque_calls = []
         self.assumes = []
         self.items = []             # ("struct"|"enum"|"opaque_type"|"fn"|"trait_stub", ...)
@@ -194,6 +196,16 @@ def parse(path, include_dir=None, part=False):
         elif kw == "opaque_call":
             # opaque_call `Path::Ctor` => `stub()` : every call `Path::Ctor( ... )` (arguments dropped) becomes the stub expression
             u.opaque_calls.append((tick(0), tick(2)))
+        elif kw == "closure_all":
+            # closure_all `anchor` params `..` ret `..` <<< ensures >>> : contract on EVERY occurrence of the closure literal in any extracted
+            # body (also inside helpers inlined by R10)
+            rest = args[1:]
+            d = {}
+            j = 0
+            while j < len(rest) and rest[j][0] == "word":
+                d[rest[j][1]] = rest[j + 1][1]
+                j += 2
+            u.closures_all.append((tick(0), d.get("params"), d.get("ret"), block()))
         elif kw == "rewrite":
             if word(1) != "=>":
                 raise SpecError("%s:%d: rewrite `a` => `b`" % (path, line))
@@ -219,6 +231,7 @@ def parse(path, include_dir=None, part=False):
             u.items += sub.items
             u.opaque += sub.opaque
             u.rewrites += sub.rewrites
+            u.closures_all += sub.closures_all
             u.opaque_calls += sub.opaque_calls
             u.prelude += sub.prelude
             u.uses += sub.uses
